@@ -253,6 +253,12 @@ def ids_of(sig):
     ids = [id(sources)]
     for k, v in sources.items():
         ids.append(id(v))
+    # the parameters carry their own view of the provenance (UpgradedParameter.sources / .source_depths): lists and maps like the others
+    for p in sig.parameters.values():
+        for attr in ('sources', 'source_depths'):
+            v = getattr(p, attr, None)
+            if isinstance(v, (list, dict)):
+                ids.append(id(v))
     return ids
 
 
